@@ -77,6 +77,18 @@ func renderErr(err error) string {
 	if u, ok := err.(userErr); ok {
 		return "u" + strconv.Itoa(u.n)
 	}
+	// xerrors.Join (subscription.go:147): a join of one error is rendered as that error
+	if j, ok := err.(interface{ Unwrap() []error }); ok {
+		es := j.Unwrap()
+		if len(es) == 1 {
+			return renderErr(es[0])
+		}
+		parts := make([]string, len(es))
+		for i, e := range es {
+			parts[i] = renderErr(e)
+		}
+		return "j[" + strings.Join(parts, ";") + "]"
+	}
 	msg := err.Error()
 	// the three wrappers of errors.go are unexported; recognise them by prefix + Unwrap
 	for _, w := range []struct{ prefix, tag string }{{"ro.Observer: ", "ob"}, {"ro.Observable: ", "oe"}, {"ro.Subscription: ", "un"}} {
@@ -187,6 +199,8 @@ type Recorder struct {
 	unhandled []string
 	inside    int32 // callbacks currently running
 	maxInside int32
+	// optional: run after the notification has been recorded (fault injection into the final observer)
+	afterN, afterE, afterC func()
 }
 
 // a delivered value that can alias operator state (slices, maps): kept to re-render at the end
@@ -239,9 +253,25 @@ func joinOrDash(l []string) string {
 // observer[T] returns the final observer that records into r.
 func observer[T any](r *Recorder) ro.Observer[T] {
 	return ro.NewObserverWithContext(
-		func(ctx context.Context, v T) { r.hold(v); r.add("N" + renderVal(v) + "/" + renderCtx(ctx)) },
-		func(ctx context.Context, err error) { r.add("E" + renderErr(err) + "/" + renderCtx(ctx)) },
-		func(ctx context.Context) { r.add("C/" + renderCtx(ctx)) },
+		func(ctx context.Context, v T) {
+			r.hold(v)
+			r.add("N" + renderVal(v) + "/" + renderCtx(ctx))
+			if r.afterN != nil {
+				r.afterN()
+			}
+		},
+		func(ctx context.Context, err error) {
+			r.add("E" + renderErr(err) + "/" + renderCtx(ctx))
+			if r.afterE != nil {
+				r.afterE()
+			}
+		},
+		func(ctx context.Context) {
+			r.add("C/" + renderCtx(ctx))
+			if r.afterC != nil {
+				r.afterC()
+			}
+		},
 	)
 }
 
